@@ -110,7 +110,14 @@ def name_programs(thorough):
         if n == "body":
             continue
         safe = re.sub(r"[^a-zA-Z0-9]", "_", n)
+        # the member in every requiredness class (required / optional / list / map / alias of
+        # optional), in objects with and without a generated constructor (<= 3 required fields)
         types = [space.obj("Holder", [space.field(n, S), space.field("other", space.opt(I))], PKG),
+                 space.obj("HolderOpt", [space.field("xf1", S), space.field(n, space.opt(B))], PKG),
+                 space.obj("HolderList", [space.field(n, space.lst(S))], PKG),
+                 space.obj("HolderMap", [space.field(n, space.mp(S, I)), space.field("xa1", S), space.field("xb1", S), space.field("xc1", S), space.field("xd1", S)], PKG),
+                 space.alias("MaybeStr", space.opt(S), PKG),
+                 space.obj("HolderAliasOpt", [space.field(n, R("MaybeStr")), space.field("xe1", D)], PKG),
                  space.union("Pick", [space.field(n, S), space.field("otherwise", I)], PKG)]
         progs.append(Program("nm_field_%s" % safe, "field / union variant named `%s`" % n, space.ir(types), cls="name:field:" + n))
         ep = space.endpoint(n, "POST", "/x/{%s}" % n, [space.arg(n, S, "path"), space.arg(n + "Q", opt_s(), "query", n), space.arg("body", S, "body")], returns=S)
@@ -152,6 +159,14 @@ def recursion_program():
         space.obj("Direct", [space.field("u", R("DirectU"))], PKG),
         space.union("DirectU", [space.field("stop", I), space.field("more", R("Direct"))], PKG),
         space.obj("SetOfSelf", [space.field("kids", space.st(R("SetOfSelf"))), space.field("d", D)], PKG),
+        # a union recursive only through aliases (direct alias, alias of optional, alias of alias)
+        space.alias("ExprAlias", R("Expr"), PKG),
+        space.alias("MaybeExpr", space.opt(R("Expr")), PKG),
+        space.alias("ExprAliasAlias", R("ExprAlias"), PKG),
+        space.union("Expr", [space.field("negated", R("ExprAlias")), space.field("maybe", R("MaybeExpr")), space.field("twice", R("ExprAliasAlias")), space.field("lit", I)], PKG),
+        # an object recursive through an alias of itself inside an optional field, and an error argument of a recursive type
+        space.alias("NodeAlias", R("AliasedNode"), PKG),
+        space.obj("AliasedNode", [space.field("next", space.opt(R("NodeAlias"))), space.field("u", space.opt(R("Expr")))], PKG),
     ]
     eps = [space.endpoint("tree", "POST", "/tree", [space.arg("body", R("Tree"), "body")], returns=R("LoopNode"))]
     return Program("recursion", "recursive types (through optional, list, set, map value, union, alias)", space.ir(space.FIXED_TYPES + sp + extra, [space.service("Rec", eps, PKG)]), cls="recursion")
